@@ -253,3 +253,35 @@ def real_mp_tier(ctx, R, B, C, kill_at=None):
         rc, hung = None, True
     lines = open(out).read().splitlines() if os.path.exists(out) else []
     return rc, hung, [l.split("\t")[0] for l in lines]
+
+
+def apalache_counting_proof(ctx):
+    """Inductive invariant of the counting abstraction (spec/apalache/RealignCount.tla) for an arbitrary batch size:
+    base case, inductive step with the repaired parent, and the expected counterexample for the D11 deviation."""
+    import shutil
+    import subprocess
+    import time
+
+    exe = shutil.which("apalache-mc")
+    if not exe:
+        ctx.notes["apalache"] = "apalache-mc not found; inductive proof skipped"
+        return
+    d = os.path.join(SPEC, "apalache")
+    runs = [("base", ["--cinit=ConstInitFixed", "--init=Init", "--inv=IndInv", "--length=0"], True),
+            ("step", ["--cinit=ConstInitFixed", "--init=IndInv", "--inv=IndInv", "--length=1"], True),
+            ("d11_deviation_is_not_inductive", ["--cinit=ConstInitD11", "--init=IndInv", "--inv=IndInv", "--length=1"], False)]
+    out = []
+    for name, args, expect_ok in runs:
+        t0 = time.time()
+        od = os.path.join(ctx.scratch, "apa_" + name)
+        p = subprocess.run([exe, "check"] + args + ["--out-dir=" + od, "RealignCount.tla"], cwd=d, capture_output=True, text=True, timeout=900)
+        ok = "EXITCODE: OK" in p.stdout
+        err = "EXITCODE: ERROR (12)" in p.stdout
+        out.append({"obligation": name, "holds": ok, "counterexample": err, "wall_s": round(time.time() - t0, 1)})
+        if not (ok or err):
+            raise MachineryError("apalache failed: " + p.stdout[-600:] + p.stderr[-300:])
+        if expect_ok and not ok:
+            ctx.violation("design:RealignCount:inductive_invariant_" + name, {"apalache": p.stdout[-1500:]})
+        if not expect_ok and ok:
+            ctx.violation("design:RealignCount:deviation_not_detected", {"note": "the D11 deviation should break inductiveness"})
+    ctx.notes["apalache_inductive_invariant"] = {"module": "spec/apalache/RealignCount.tla", "K": "arbitrary (symbolic integer >= 1)", "workers": 3, "runs": out}
